@@ -72,6 +72,26 @@ async fn workload(port: u16) -> Result<(), StatusCode> {
     let _ = session.delete_subscription(sub).await;
     let _ = session.disconnect().await;
     let _ = tokio::time::timeout(Duration::from_secs(3), handle).await;
+    // a second connection that opens a session with a subscription and then simply goes away (no CloseSession, the
+    // socket is dropped): the server tears the connection down with the session still registered.  (This runs after
+    // the first session has been closed: TcpTransport::finish clears the server-wide session manager, so the end of
+    // ANY connection terminates the sessions of ALL connections -- see DESIGN.md 11.7.)
+    {
+        let endpoint2: EndpointDescription = (format!("opc.tcp://127.0.0.1:{}/", port).as_str(), "None", MessageSecurityMode::None, UserTokenPolicy::anonymous()).into();
+        if let Ok((session2, event_loop2)) = client.new_session_from_endpoint(endpoint2, IdentityToken::Anonymous).await {
+            let handle2 = event_loop2.spawn();
+            let _ = tokio::time::timeout(Duration::from_secs(20), session2.wait_for_connection()).await;
+            let _ = session2.read(&[v0.clone().into()], TimestampsToReturn::Both, 0.0).await;
+            if let Ok(sub2) = session2.create_subscription(Duration::from_millis(100), 30, 10, 0, 0, true, DataChangeCallback::new(|_, _| {})).await {
+                let items2: Vec<MonitoredItemCreateRequest> = vec![NodeId::new(2, "v1").into()];
+                let _ = session2.create_monitored_items(sub2, TimestampsToReturn::Both, items2).await;
+            }
+            tokio::time::sleep(Duration::from_millis(200)).await;
+            handle2.abort();
+            drop(session2);
+            tokio::time::sleep(Duration::from_millis(600)).await;
+        }
+    }
     Ok(())
 }
 
@@ -89,6 +109,7 @@ fn observe() -> Vec<Case> {
             tokio::time::timeout(Duration::from_secs(120), workload(port)).await
         });
         if matches!(r, Ok(Ok(()))) { ok = true; break; }
+        eprintln!("c38 workload attempt failed: {:?}", r);
     }
     { let mut s = server.write(); s.abort(); }
     rt.block_on(async { tokio::time::sleep(Duration::from_millis(1500)).await; });
